@@ -83,6 +83,16 @@ Fixpoint ascending (sels : list loc) : bool :=
 Definition selections_ok (sels : list loc) : bool :=
   forallb (fun l => match l with [] => false | _ => true end) sels && non_nested sels && ascending sels.
 
+(* a wider domain, used only by the search for failing inputs (the theorems are stated for
+   [selections_ok]): selections that pass through no array index, nested and repeated ones
+   included.  No rank is involved, so "every selected node's value is found at its location and
+   there are no other leaves" has one reading, which [project_tree] computes. *)
+Definition keys_only (sels : list loc) : bool :=
+  forallb (fun l => match l with
+                    | [] => false
+                    | _ => forallb (fun p => match p with PKey _ => true | PIdx _ => false end) l
+                    end) sels.
+
 (* flat projection: the selected values in selection order *)
 Definition project_flat (vals : list json) : option json :=
   match vals with [] => None | _ => Some (JArr vals) end.
